@@ -187,3 +187,57 @@ Proof.
   - rewrite <- (map_map (zweight Z.div [2; 7; 11; 13]%Z) (@nofZ R _)), Hf.
     unfold lagrange0_w, nsum. cbn [map combine fold_right fst snd peval hd]. numR. lra.
 Qed.
+(** ** the fallback decision [far] for EVERY threshold, edge values included *)
+Lemma nabs_Rabs (x : R) : @nabs R _ x = Rabs x.
+Proof. unfold nabs. numR. destruct (Rleb 0 x) eqn:E.
+  - apply Rleb_true in E. rewrite Rabs_right; lra.
+  - apply Rleb_false in E. rewrite Rabs_left; lra. Qed.
+
+Lemma far_spec (fm ex best : R) : 0 < ex / best ->
+  (far fm ex best = true <-> fm < Rabs (ln (ex / best) / ln 10)).
+Proof. intros Hr. unfold far, ln10, nltb. rewrite nabs_Rabs. numR.
+  assert (E0 : Reqb (ex / best) 0 = false) by (apply Reqb_false; lra). rewrite E0.
+  assert (E1 : Rleb 0 (ex / best) = true) by (apply Rleb_true; lra). rewrite E1. cbn [negb].
+  destruct (Rleb (Rabs (ln (ex / best) / ln 10)) fm) eqn:E; cbn [negb].
+  - apply Rleb_true in E. split; [discriminate | lra].
+  - apply Rleb_false in E. split; auto. Qed.
+
+Lemma far_zero_ratio (fm ex best : R) : ex / best = 0 -> far fm ex best = true.
+Proof. intros Hr. unfold far. numR. rewrite (proj2 (Reqb_true _ _) Hr). reflexivity. Qed.
+
+Lemma far_negative_ratio (fm ex best : R) : ex / best < 0 -> far fm ex best = false.
+Proof. intros Hr. unfold far, nltb. numR.
+  rewrite (proj2 (Reqb_false _ _)) by lra. rewrite (proj2 (Rleb_false 0 (ex / best))) by lra. reflexivity. Qed.
+
+Lemma ln10_pos : 0 < ln 10.
+Proof. rewrite <- ln_1. apply ln_increasing; lra. Qed.
+
+(** threshold 0: every entry that differs at all from the finest-grid value (ratio positive) falls back *)
+Lemma far_zero_threshold (ex best : R) : 0 < ex / best ->
+  (far 0 ex best = true <-> ex <> best).
+Proof. intros Hr. rewrite far_spec by exact Hr.
+  assert (Hb : best <> 0). { intros ->. unfold Rdiv in Hr. rewrite Rinv_0, Rmult_0_r in Hr. lra. }
+  pose proof ln10_pos as H10.
+  split.
+  - intros H Heq. subst ex. replace (best / best) with 1 in H by (field; exact Hb). rewrite ln_1 in H.
+    replace (0 / ln 10) with 0 in H by (field; lra). rewrite Rabs_R0 in H. lra.
+  - intros Hne. apply Rabs_pos_lt.
+    assert (Hl : ln (ex / best) <> 0).
+    { intros Hl. apply Hne. rewrite <- ln_1 in Hl. apply ln_inv in Hl; try lra.
+      replace ex with (ex / best * best) by (field; exact Hb). rewrite Hl. ring. }
+    intros Hq. apply Hl. replace (ln (ex / best)) with (ln (ex / best) / ln 10 * ln 10) by (field; lra). rewrite Hq. ring. Qed.
+
+(** the threshold is monotone: what falls back at a threshold falls back at every smaller one; nothing falls back
+    beyond the distance itself *)
+Lemma far_monotone (fm fm' ex best : R) : fm' <= fm -> far fm ex best = true -> far fm' ex best = true.
+Proof. intros Hle H. destruct (Rtotal_order (ex / best) 0) as [Hn|[Hz|Hp]].
+  - rewrite far_negative_ratio in H by exact Hn. discriminate.
+  - apply far_zero_ratio; exact Hz.
+  - apply far_spec in H; [|exact Hp]. apply far_spec; [exact Hp | lra]. Qed.
+
+(** zero threshold, whole result entry: with a positive ratio the result IS the finest-grid value *)
+Lemma zero_threshold_returns_finest (ex best : R) : 0 < ex / best ->
+  (if far 0 ex best then best else ex) = best.
+Proof. intros Hr. destruct (far 0 ex best) eqn:E; [reflexivity|].
+  destruct (Req_dec ex best) as [->|Hne]; [reflexivity|].
+  apply (far_zero_threshold ex best Hr) in Hne. congruence. Qed.
